@@ -44,7 +44,7 @@ PROP = {
     "search_seeds": 3,
     "rule": "Real middleware.Retry with the real cenkalti/backoff and the real clock. logic: MaxRetries -1..8 x first success at call "
             "0..1+MaxRetries or never x hook set/unset, zero intervals, exhaustively; cancel: the context cancelled from inside call j for "
-            "every j (MaxRetries 1..4 quick / 1..8 thorough) with the racing wait >= 10 ms; schedule: 260 (quick) / 2600 (thorough) seeded "
+            "every j (MaxRetries 1,2,3,4,6,8 quick / 1..8 thorough) with the racing wait >= 10 ms; schedule: 260 (quick) / 2600 (thorough) seeded "
             "configurations, InitialInterval 0..3 ms, MaxInterval up to 5 ms, Multiplier {1, 3/2, 2, 3}, RandomizationFactor {0, 1/2, 1}, "
             "fail^i then succeed or fail forever, 0..2 output messages per call (also from failing calls); elapsed: MaxElapsedTime 30 ms with "
             "a call sleeping 150 ms at call 0..4, MaxElapsedTime 2..12 ms against waits of 1..6 ms, and 10 s (no effect); odd: "
